@@ -401,6 +401,19 @@ def d(ck: Check) -> None:
             if "find_single_node_LDOIs" not in L:
                 probs.append("when no table is supplied, the drivers are not searched in LDOIs freshly computed from the given "
                              "network (a table filled for another network may be used)")
+    # a supplied table is used as it is: it is replaced exactly when it was omitted (`is None`); an empty table is an answer
+    # ("no node state to consider"), not an omission
+    tab_p = next((p_ for p_ in f.params()[2:] if True), None)
+    for c_ in own_walk(f.node):
+        if isinstance(c_, ast.Call) and callee_name(c_) == "find_single_node_LDOIs":
+            st_ = f.stmt_of(c_)
+            if isinstance(st_, ast.Assign) and tab_p and text(st_.targets[0]) == tab_p:
+                pc_ = fm.pc(fm.cfgn(c_))
+                na_ = logic.B(f"none:{tab_p}")
+                if not (na_[1] in logic.atoms(pc_) and logic.equivalent(pc_, na_)):
+                    probs.append(f"line {c_.lineno}: the table is recomputed under `{logic.show(pc_)[:80]}`, not exactly when it was omitted "
+                                 f"(`{tab_p} is None`): a supplied empty table is replaced by the LDOIs of all variables and drivers "
+                                 f"outside the caller's table are reported")
     ck.ob("D", fm, f.node, not probs, "; ".join(probs) if probs else "driver iff target <= LDOI + {the fixed value}", key="single drivers")
 
 
